@@ -3,7 +3,7 @@ import Mkdb.Proofs.SessionInv9
 import Mkdb.Proofs.DbNames1
 import Mkdb.Proofs.SessionCrash3
 import Mkdb.Proofs.SessionCrash6
-import Mkdb.Proofs.SessionCrash9
+import Mkdb.Proofs.SessionCrash10
 /-!
 # C17 — databases are isolated and survive any USE pattern
 
@@ -1013,5 +1013,87 @@ example : FirstRowRefused [⟨tname, [⟨"b", .varchar, 5000⟩], []⟩] (.inser
 INSERT INTO t VALUES ('xx…x') with 1100 bytes - refused for its size, the counters moved -; INSERT INTO t VALUES
 ('yy…y') with 1100 bytes - refused again, on the database the first refusal left -; crash; USE d; restart -/
 example : OkOps3 {} (fun _ => []) true oversizedOps3 := okOps3_example
+
+end Mkdb.Session
+
+
+
+namespace Mkdb.Session
+open Mkdb.Engine Mkdb.Sql Mkdb.Tree
+open Mkdb.Store hiding Stmt
+
+/-! ### crashes: CREATE TABLE anywhere - also after row statements that are logged and not flushed
+
+`CreateTable` (storage/relation.go: lockExclusive; createTable; flushPagesLocked) writes no log record; it adds
+rows to the two catalog tables and then flushes ALL dirty pages and the header.  So it ends in a checkpoint
+whatever was dirty before it.  The records of the earlier row statements stay in the log; after the flush every
+one of them is applied on the pages in the data file (the catalog trees only grew, the LSN counter only went up),
+so a recovery after a crash finds nothing to redo.  The theorems below drop the side condition "CREATE TABLE only
+while no row statement is unflushed on the selected database" of the history theorems above (the flag `clean` of
+`OkOps` / `OkOps2` / `OkOps3`). -/
+
+/-- **C17.create_table_anywhere_keeps_the_crash_invariant**: a CREATE TABLE that the plain model of the selected
+database accepts (with room, `StmtRoom`) is accepted, keeps the crash invariant `SessCrashB` for the plain
+model's result, writes no log record, and leaves the selected database CHECKPOINTED - with NO hypothesis about
+what the selected database holds unflushed: any number of accepted INSERT / UPDATE / DELETE statements, refused
+statements and oversized rows (everything `SessCrashB` allows) may have come since the last flush.  A crash
+right after it loses nothing (`C17_crash_invariant_up_to_the_counters`): the rows logged before the CREATE TABLE
+and the new table are there. -/
+theorem C17_create_table_anywhere_keeps_the_crash_invariant (s : Sess) (w : String → Spec.SDB)
+    (h : SessCrashB s w) (n : String) (hc : s.cur = some n) (db : DB) (hg : getDB s n = some db)
+    (t : Bytes) (cols : List ColDef)
+    (hroom : ∀ pt sch tbls, DbInv db (w n) pt sch tbls → StmtRoom db pt sch tbls (.createTable t cols))
+    (sdb' : Spec.SDB) (hspec : Spec.specStmt (w n) (.createTable t cols) = some sdb') :
+    (exec s (.createTable t cols)).2 = Out.ok ∧ SessCrashB (exec s (.createTable t cols)).1 (setW w n sdb') ∧
+      ∃ db', getDB (exec s (.createTable t cols)).1 n = some db' ∧ db'.wal = db.wal ∧ CkptNS db' sdb' :=
+  createTable_anywhere_sessCrashB h n hc db hg t cols hroom sdb' hspec
+
+/-- **C17.histories_with_crashes_create_table_anywhere_from**: from any session that satisfies `SessCrashB s w`,
+for every list of operations - statements, `restart`, crash - that meets `OkOps4`: `runOps s ops` is `some s'` -
+NO recovery fails - and `s'` satisfies `SessCrashB` (so `SessAbs`) for the plain databases `worldOps s w ops`.
+`OkOps4` is `OkOps3` WITHOUT the flag: it asks NOTHING of CREATE DATABASE, USE, SHOW DATABASES, SELECT, `restart`,
+crash; a CREATE TABLE / INSERT / UPDATE / DELETE is (1) accepted by the plain model of the selected database with
+room (`StmtRoom`) - a CREATE TABLE too, WHEREVER it comes -, or (2) leaves the session as it is and is refused by
+the plain model (no database selected), or (3) is refused by the selected database for one of the reasons
+`StmtRefusalC` lists, or (4) is an INSERT refused at its first row (`FirstRowRefused`, the size of the row
+included).  Every list that meets `OkOps3`, whatever the flag, meets `OkOps4` (`OkOps3.toOkOps4`).  EXCLUDED as
+before: statements refused at a later row (false: `C17_crash_loses_rows_of_a_refused_insert`). -/
+theorem C17_histories_with_crashes_create_table_anywhere_from (s : Sess) (w : String → Spec.SDB)
+    (ops : List SOp) (h : SessCrashB s w) (hok : OkOps4 s w ops) :
+    ∃ s', runOps s ops = some s' ∧ SessCrashB s' (worldOps s w ops) ∧ SessAbs s' (worldOps s w ops) := by
+  obtain ⟨s', e, h'⟩ := runOps_sessCrashB ops s w h hok
+  exact ⟨s', e, h', h'.abs⟩
+
+/-- **C17.histories_with_crashes_create_table_anywhere**: the same from the EMPTY session; one more crash or
+restart succeeds too and preserves the plain databases of the acknowledged statements (then `SessCrash'` holds
+again). -/
+theorem C17_histories_with_crashes_create_table_anywhere (ops : List SOp)
+    (hok : OkOps4 {} (fun _ => []) ops) :
+    ∃ s', runOps {} ops = some s' ∧ SessCrashB s' (worldOps {} (fun _ => []) ops) ∧
+      SessAbs s' (worldOps {} (fun _ => []) ops) ∧
+      (∃ s'', crashRestart s' = some s'' ∧ SessCrash' s'' (worldOps {} (fun _ => []) ops) ∧ names s'' = names s') ∧
+      (∃ s'', restart s' = some s'' ∧ SessCrash' s'' (worldOps {} (fun _ => []) ops) ∧ names s'' = names s') := by
+  obtain ⟨s', e, h'⟩ := runOps_sessCrashB ops {} _ (cinvB_empty _ true).inv hok
+  obtain ⟨s1, e1, k1, n1, _⟩ := crashRestart_sessCrashB h'
+  obtain ⟨s2, e2, k2, n2, _⟩ := restart_sessCrashB h'
+  exact ⟨s', e, h', h'.abs, ⟨s1, e1, k1, n1⟩, ⟨s2, e2, k2, n2⟩⟩
+
+/-- the lists of `C17_histories_with_crashes_and_oversized_rows` are covered: `OkOps3`, whatever the flag, implies
+`OkOps4`; e.g. the list `oversizedOps3` -/
+example : OkOps4 {} (fun _ => []) oversizedOps3 := OkOps3.toOkOps4 _ _ _ _ okOps3_example
+
+/-- **C17.create_table_after_unflushed_insert_example** (computed): CREATE DATABASE d; USE d; CREATE TABLE t
+(a INT); INSERT INTO t VALUES (5); CREATE TABLE u (a INT) - issued while the INSERT is logged and not flushed -;
+crash.  Outcomes 0 = accepted: all five statements are accepted.  Before the crash the log of `d` holds ONE record
+(the INSERT's; neither CREATE TABLE logged anything) and the header in the data file equals the header in memory
+(CREATE TABLE u flushed).  Recovery succeeds; nothing is selected; after USE d a reader sees the row `(5)` in `t`,
+and `u` is there and empty. -/
+theorem C17_create_table_after_unflushed_insert_example :
+    (outsOps {} createAnywhereOps).map (·.map outCode) = some [0, 0, 0, 0, 0] ∧
+    (runOps {} createAnywhereOps.dropLast).map (fun s' => (getDB s' "d").map fun db =>
+        (db.wal.length, decide (db.store.dhdr = db.store.hdr))) = some (some (1, true)) ∧
+    (runOps {} createAnywhereOps).map (fun s' => (s'.cur, rowsOfT (exec s' (.use [100])).1 "d" tname,
+        rowsOfT (exec s' (.use [100])).1 "d" uname)) = some (none, some [[.int 5]], some []) :=
+  createAnywhereOps_example
 
 end Mkdb.Session
